@@ -11,9 +11,9 @@
      DecodeM - model level: quat = quaternions[...], label = iopt
      DecodeL - loader level: label feature = labels % remainder
    Property C06 is the invariant Correct.  *)
-EXTENDS Integers, Sequences, FiniteSets, TLC, Json
+EXTENDS Integers, Sequences, FiniteSets, TLC, Json, SequencesExt, Zyx
 
-CONSTANTS MaxT, MaxK, Shifts, Drivers, Models
+CONSTANTS MaxT, MaxK, Shifts, Drivers, Models, IncludeBig
 
 VARIABLES cfg, pc, ri, ti, cands, scores, iopt, out
 vars == <<cfg, pc, ri, ti, cands, scores, iopt, out>>
@@ -47,7 +47,11 @@ RotSeqB == << <<<<1,0,0>>,<<0,1,0>>,<<0,0,1>>>>,     \* identity
               <<<<0,0,1>>,<<0,1,0>>,<<-1,0,0>>>>,    \* 90 deg about y
               <<<<0,-1,0>>,<<-1,0,0>>,<<0,0,-1>>>>,  \* 180 deg about (1,-1,0)
               <<<<0,0,1>>,<<1,0,0>>,<<0,1,0>>>> >>   \* 120 deg about (1,1,1), other sense
-RotSeq(c) == IF c.rs = "A" THEN RotSeqA ELSE RotSeqB
+(* all 24 axis-aligned rotations in a fixed order (for searches with more than 256 candidates) *)
+MKey(M) == (M[1][1] + 1) + 3 * (M[1][2] + 1) + 9 * (M[1][3] + 1) + 27 * (M[2][1] + 1) + 81 * (M[2][2] + 1) + 243 * (M[2][3] + 1)
+           + 729 * (M[3][1] + 1) + 2187 * (M[3][2] + 1) + 6561 * (M[3][3] + 1)
+Rot24Seq == SetToSortSeq(Rot24M, LAMBDA a, b : MKey(a) < MKey(b))
+RotSeq(c) == IF c.rs = "A" THEN RotSeqA ELSE IF c.rs = "ALL" THEN Rot24Seq ELSE RotSeqB
 RangeZ == << <<<<1,0,0>>,<<0,0,1>>,<<0,-1,0>>>>, <<<<1,0,0>>,<<0,1,0>>,<<0,0,1>>>>, <<<<1,0,0>>,<<0,0,-1>>,<<0,1,0>>>> >>
 RangeX == << <<<<0,1,0>>,<<-1,0,0>>,<<0,0,1>>>>, <<<<1,0,0>>,<<0,1,0>>,<<0,0,1>>>>, <<<<0,-1,0>>,<<1,0,0>>,<<0,0,1>>>> >>
 IsRange(drv) == drv \in {"model_range", "loader_range"}
@@ -65,7 +69,10 @@ Cfgs == {c \in [T : 1..MaxT, K : 1..MaxK, j : 0..(MaxT-1), k : 0..(MaxK-1),
             /\ (c.driver = "loader_stack" => c.T >= 2)
             /\ (IsRange(c.driver) => (c.K = 3 /\ c.rs = "A"))}
 
-Init == /\ cfg \in Cfgs
+(* searches whose flat candidate index exceeds one byte: 11 templates x 24 rotations = 264 candidates *)
+BigCfgs == {[T |-> 11, K |-> 24, j |-> jk[1], k |-> jk[2], d |-> "0", driver |-> drv, model |-> "ZNCC", rs |-> "ALL"] :
+              jk \in {<<5, 23>>, <<10, 23>>, <<0, 12>>}, drv \in {"model", "loader_multi"}}
+Init == /\ cfg \in Cfgs \cup (IF IncludeBig THEN BigCfgs ELSE {})
         /\ pc = "gen" /\ ri = 0 /\ ti = 0 /\ cands = <<>> /\ scores = <<>>
         /\ iopt = -1 /\ out = [label |-> -1, rot |-> -1, flat |-> -1]
 
@@ -101,7 +108,7 @@ CandidateOrder == pc # "gen" =>
    /\ Len(cands) = cfg.T * cfg.K
    /\ \A f \in 1..Len(cands) : cands[f] = [rot |-> (f-1) \div cfg.T, tmpl |-> (f-1) % cfg.T]
 Correct == pc = "done" => (out.label = cfg.j /\ out.rot = cfg.k /\ out.flat = FlatIndex(cfg.T, cfg.j, cfg.k))
-Bijection == \A T \in 1..MaxT, K \in 1..MaxK : DecodeIsBijection(T, K)
+DecodeBijective == (\A T \in 1..MaxT, K \in 1..MaxK : DecodeIsBijection(T, K)) /\ DecodeIsBijection(11, 24)
 TypeOK == pc \in {"gen", "opt", "argmax", "decode", "done"}
 
 Emit == pc = "done" => PrintT(ToJson([cfg |-> cfg, expect |-> out, rots |-> RotsFor(cfg),
